@@ -681,10 +681,11 @@ def emit_negative(em, sh, rng, chunk):
     es = [sh.first_by_key(pick()["key"]) for _ in range(n)]
     add(fam(), "S", "$S", T, [e["type"] for e in es], [e["key"] for e in es][:rng.randint(1, n - 1)], "short-names")
     # container type parameter that is not a struct
-    e = sh.first_by_key(pick()["key"])
-    add(fam(), "ptr", "(ptr $S)", "*" + T, [e["type"]], [e["key"]], "ptr-container")
-    e = sh.first_by_type(pick()["type"])
-    add(fam(), "ptr", "(ptr $S)", "*" + T, [e["type"]], [], "ptr-container")
+    # (a pointer to the struct must panic in NewLens/NewReflector, after the lookups; arities 1..4, both families)
+    es = [sh.first_by_key(pick()["key"]) for _ in range(rng.randint(1, 4))]
+    add(fam(), "ptr", "(ptr $S)", "*" + T, [e["type"] for e in es], [e["key"] for e in es], "ptr-container")
+    es = [sh.first_by_type(pick()["type"]) for _ in range(rng.randint(1, 4))]
+    add(fam(), "ptr", "(ptr $S)", "*" + T, [e["type"] for e in es], [], "ptr-container")
     e = sh.first_by_key(pick()["key"])
     bad = rng.choice([("(ptr (ptr $S))", "**" + T), ("int", "int"), ("(slice $S)", "[]" + T), ("(array 2 $S)", "[2]" + T),
                       ("iface", "interface{}"), ("(map string $S)", "map[string]" + T)])
